@@ -450,10 +450,20 @@ type ScanSummary struct {
 	Fatal    bool
 	Removed  map[string][]string // per group: nodes terminated or deleted (successful calls)
 	NonRem   map[string][]string // per group: every other write
+	// Protected: view nodes with a non-empty no-delete annotation and no force-removal taint.
+	Protected map[string]bool
 }
 
 func summarize(ctx *ScanCtx) ScanSummary {
 	s := ScanSummary{Scan: ctx.Scan, ByGroup: map[string][]string{}, Removed: map[string][]string{}, NonRem: map[string][]string{}}
+	s.Protected = map[string]bool{}
+	for _, g := range ctx.Groups {
+		for _, n := range g.Nodes {
+			if _, f := HasTaint(n, ForceTaintKey); !f && n.Annotations[NoDeleteKey] != "" {
+				s.Protected[n.Name] = true
+			}
+		}
+	}
 	s.Fatal = ctx.Res.Err != nil || ctx.Res.Panic != nil || ctx.Res.Killed || ctx.Res.Exit || ctx.Res.Hang
 	for _, e := range ctx.Entries {
 		if !e.Write() {
